@@ -11,7 +11,7 @@ without pint's conversion code), trichotomy, DimensionalityError on cross-dimens
 while == is False, the bare-number rule; float registry: order away from ties.
 
 Violation keys:  <law>:<region>:<units of a>,<units of b>
-  law    in eq-spec | symmetry | reflexivity | ne | transitivity | hash | trichotomy | order | cross-dim
+  law    in eq-spec | eq-raises | symmetry | reflexivity | ne | transitivity | hash | trichotomy | order | cross-dim
             | number-rule | unit-eq | unit-order | float-order | bool
   region in both-zero-offset   (both magnitudes zero and an offset unit involved: F1)
             delta-vs-offset    (an offset unit against a delta_ unit: F85)
@@ -276,7 +276,7 @@ class World:
         in_domain = (isnan(x) or pa is not None or ph.root(ua) is None) and True
         da, db = ph.dim(ua), ph.dim(ub)
         if eq.err or eqr.err:
-            fail("eq-spec", f"== raised {eq.err or eqr.err} instead of returning a bool")
+            fail("eq-raises", f"== raised {eq.err or eqr.err} instead of returning a bool")
             return out
         if eq.val != eqr.val:
             fail("symmetry", f"a == b is {eq.val} but b == a is {eqr.val}")
@@ -377,9 +377,9 @@ def operand_term(n):
 # ------------------------------------------------------------------ the run
 def detect_quirks(w):
     """replay the _refuted witnesses on the implementation to select the model's switches"""
-    z = w.q(0, {"degree_Celsius": F(1)}) == w.q(0, {"kelvin": F(1)})
-    h = hash(w.q(1, {"hertz": F(1)})) != hash(w.q(1, {"becquerel": F(1)}))
-    return bool(z), bool(h)
+    z = Obs(lambda: bool(w.q(0, {"degree_Celsius": F(1)}) == w.q(0, {"kelvin": F(1)})))
+    h = Obs(lambda: hash(w.q(1, {"hertz": F(1)})) != hash(w.q(1, {"becquerel": F(1)})))
+    return z.val is True, h.val is not False
 
 
 def run(ck):
@@ -457,14 +457,14 @@ def run(ck):
     pairs = [(a, b) for cl in classes.values() for a in cl for b in cl]
     ck.extra["same_dimension_pairs_total"] = len(pairs)
     small = {d: cl for d, cl in classes.items() if not d}
-    chosen = pairs if thorough else rng.sample(pairs, 500)
+    chosen = pairs if thorough else rng.sample(pairs, 320)
     for a, b in chosen:
         do_pair({a: F(1)}, {b: F(1)}, std_rows({a: F(1)}, {b: F(1)}), "same-dim")
     # reflexivity on the very same object and on a copy
     for n in (rational if thorough else rng.sample(rational, 120)):
         for x in (0, 1, F(-7, 3)):
             q1 = w.q(x, {n: F(1)})
-            if not (q1 == q1) or not (q1 == w.q(x, {n: F(1)})) or hash(q1) != hash(w.q(x, {n: F(1)})):
+            if Obs(lambda: bool(q1 == q1) and bool(q1 == w.q(x, {n: F(1)})) and hash(q1) == hash(w.q(x, {n: F(1)}))).val is not True:
                 fails.append((f"reflexivity:other:{n},{n}", f"{x} {n} is not equal to itself / hash unstable", {"law": "pair", "a": [mstr(x), {n: "1"}], "b": [mstr(x), {n: "1"}]}))
             ck.case(key=("refl", n, mstr(x)))
     ck.count("reflexivity")
@@ -476,7 +476,7 @@ def run(ck):
         for b in temps:
             ua, ub = {a: F(1)}, {b: F(1)}
             rows = [(x, x) for x in special[:6]] + [(0, 1), (NAN, 0), (0, NAN)]
-            for x in special:
+            for x in (special if thorough else special[:5] + rng.sample(special[5:], 2)):
                 y = ph.equalise(x, ua, ub)
                 if y is not None:
                     rows += [(x, y), (x, y + 1)]
@@ -502,7 +502,7 @@ def run(ck):
     ints = [F(-2), F(-1), F(1), F(2), F(3)]
     dimless_base = [n for n in rational if ureg._units[n].is_base and set(ureg._units[n].reference) == {"[]"}]
     ck.extra["dimensionless_base_units"] = dimless_base
-    for _ in range(1500 if thorough else 160):
+    for _ in range(1500 if thorough else 110):
         da = {}
         for _ in range(rng.randint(1, 3)):
             da[rng.choice(rational)] = rng.choice(ints)
@@ -535,7 +535,7 @@ def run(ck):
 
     # ---- (6) bare numbers, None, bool(), to_root_units
     numbers = [0, 1, -1, F(3, 2), NAN, F(1, 100), 200, None]
-    qs = [({n: F(1)}) for n in (rational if thorough else rng.sample(rational, 70))] + fam + [{t: F(1)} for t in temps]
+    qs = [({n: F(1)}) for n in (rational if thorough else rng.sample(rational, 30))] + fam + [{t: F(1)} for t in temps]
     for ua in qs:
         for x in (0, 1, F(3, 2), NAN):
             a = (x, ua)
@@ -567,8 +567,9 @@ def run(ck):
                 ck.count("number:" + (ocmp.err or "ok"))
 
     # ---- (7) Unit-level ==, <
-    upairs = rng.sample(pairs, 1500 if thorough else 150) + [(a, b) for a in temps for b in temps] + \
-        [tuple(rng.sample(rational, 2)) for _ in range(60)]
+    upairs = rng.sample(pairs, 1500 if thorough else 80) + [(a, b) for a in temps for b in temps] + \
+        [tuple(rng.sample(rational, 2)) for _ in range(200 if thorough else 30)]
+    unit_vs_number_done = set()
     for a, b in upairs:
         U, V = w.unit({a: F(1)}), w.unit({b: F(1)})
         oe = Obs(lambda: plain_bool(U == V))
@@ -594,11 +595,12 @@ def run(ck):
             pq = ph.value(m, {b: F(1)})
             if pa is not None and pq is not None and region(ph, (1, {a: F(1)}), (m, {b: F(1)})) == "other" and (oq.err or oq.val != (pa == pq)):
                 fails.append((f"unit-eq:other:{a},{b}", f"Unit == Quantity is {oq.js()}", {"law": "unit", "a": a, "b": b}))
-        for n in (0, 1, NAN):
+        for n in ((0, 1, NAN) if a not in unit_vs_number_done else ()):
             on = Obs(lambda: plain_bool(U == n))
             ocn = Obs(lambda: cmp4(U, n))
             add(f"KUnitEq {coq_units({a: F(1)})} (UNum {coq_mag(n)}) {on.coq(coq_bool)}", {"unit_eq_num": [a, mstr(n)]})
             add(f"KUnitCmp {coq_units({a: F(1)})} (UNum {coq_mag(n)}) {ocn.coq(coq_cmp4)}", {"unit_cmp_num": [a, mstr(n)]})
+        unit_vs_number_done.add(a)
         ck.case(key=("unit", a, b))
     ck.count("unit-level", len(upairs))
 
@@ -630,9 +632,19 @@ def run(ck):
             qs3.append((y, u))
         Q3 = [w.q(*t) for t in qs3]
         e = [[None] * 3 for _ in range(3)]
+        raised = False
         for i1 in range(3):
             for j1 in range(3):
-                e[i1][j1] = bool(Q3[i1] == Q3[j1])
+                oe = Obs(lambda: plain_bool(Q3[i1] == Q3[j1]))
+                e[i1][j1] = oe.val
+                if oe.err:
+                    raised = True
+                    fails.append((f"eq-raises:{region(ph, qs3[i1], qs3[j1])}:{ustr(qs3[i1][1])},{ustr(qs3[j1][1])}",
+                                  f"== raised {oe.err} instead of returning a bool; a = {mstr(qs3[i1][0])} [{ustr(qs3[i1][1])}], b = {mstr(qs3[j1][0])} [{ustr(qs3[j1][1])}]",
+                                  {"law": "pair", "a": [mstr(qs3[i1][0]), {k: str(v) for k, v in qs3[i1][1].items()}],
+                                   "b": [mstr(qs3[j1][0]), {k: str(v) for k, v in qs3[j1][1].items()}]}))
+        if raised:
+            continue
         ntr += 1
         ck.case(key=("triple", tuple(ustr(u) for u in us), tuple(mstr(t[0]) for t in qs3)))
         for (i1, j1, k1) in ((0, 1, 2), (1, 0, 2), (0, 2, 1), (2, 1, 0), (1, 2, 0), (2, 0, 1)):
@@ -654,7 +666,7 @@ def run(ck):
         # every true == must come with equal hashes
         for i1 in range(3):
             for j1 in range(i1 + 1, 3):
-                if e[i1][j1] and hash(Q3[i1]) != hash(Q3[j1]):
+                if e[i1][j1] and Obs(lambda: hash(Q3[i1]) == hash(Q3[j1])).val is not True:
                     o = {"eq": Obs(lambda: True), "eq_rev": Obs(lambda: e[j1][i1]), "ne": Obs(lambda: False),
                          "cmp": Obs(lambda: cmp4(Q3[i1], Q3[j1])), "hash_eq": False}
                     fl = [kd for kd in w.pair_laws(qs3[i1], qs3[j1], o) if kd[0].startswith("hash:")]
@@ -700,15 +712,20 @@ def run(ck):
     random.Random(ck.seed + 1).shuffle(order)
     cases = [cases[i] for i in order]
     descs = [descs[i] for i in order]
-    bad = ck.coq_mismatches("c05", header, cases, "ok", shard=400) if ok else None
+    shard = min(400, max(100, -(-len(cases) // 16)))
+    bad = ck.coq_mismatches("c05", header, cases, "ok", shard=shard) if ok else None
     ck.extra["model_vs_impl_cases"] = len(cases)
     ck.extra["model_vs_impl_disagreements"] = None if bad is None else len(bad)
-    seen = set()
+    seen, per_kind = set(), {}
     for key, desc, rp in fails:
         k0 = ":".join(key.split(":")[:2])
         if key in seen:
             continue
         seen.add(key)
+        if ck._match_known(key) is None:
+            per_kind[k0] = per_kind.get(k0, 0) + 1
+            if per_kind[k0] > 3:            # at most three concrete inputs per (law, region)
+                continue
         ck.violation(key, desc, rp)
     ck.extra["oracle_failures_by_law_region"] = {}
     for key, _, _ in fails:
